@@ -222,7 +222,22 @@ def color_switches(P):
 def r2(ctx):
     P = ctx.P
     sw = color_switches(P)
-    ctx.floor("colour switches in the core crates", len(sw), 10)
+    # a colour case split may also be a method of the Policy trait implemented once per colour (static dispatch): the two implementations are
+    # the arms; they count as a switch when they are mirror images (score constructors mirrored, same arguments)
+    MIRV = {"BlackMateIn": "WhiteMateIn", "WhiteMateIn": "BlackMateIn", "Min": "Max", "Max": "Min"}
+    known = {"is_better", "update_cutoff"}
+    extra_pairs = 0
+    for m_ in sorted({k.rsplit("::", 1)[1] for k in P.fns if k.startswith(f"<{ENG}White as {ENG}Policy>::")} - known):
+        kw, kb = f"<{ENG}White as {ENG}Policy>::{m_}", f"<{ENG}Black as {ENG}Policy>::{m_}"
+        if kb not in P.fns or "{" in m_:
+            continue
+        lw, lb = T.Engine(P).tabulate(kw), T.Engine(P).tabulate(kb)
+        shape = lambda lv: len(lv) == 1 and not lv[0].cond and lv[0].ret[0] == "adt" and lv[0].ret[1] == SCORE and lv[0].ret[2] in MIRV
+        if shape(lw) and shape(lb):
+            ok = MIRV[lw[0].ret[2]] == lb[0].ret[2] and lw[0].ret[3] == lb[0].ret[3]
+            ctx.ob(f"Policy::{m_} pair", ok, f"Policy::{m_}: White gives {T.show(lw[0].ret)}, Black gives {T.show(lb[0].ret)}; not mirror images", site=P.body(kw).get("def_span"))
+            extra_pairs += 1
+    ctx.floor("colour switches in the core crates", len(sw) + extra_pairs, 10)
     seen_named = set()
     for key, bi, arms in sw:
         body = P.body(key)
@@ -256,7 +271,7 @@ def r2(ctx):
         # in the function itself or in a private helper extracted from it
         ctx.ob(f"named instance {T.short(n)[:50]}", bool(k2.private_closure(P, n) & seen_named), f"expected a branch on Color in {n} or its private helpers (anchor)")
     ab = P.find_fn("Engine::alphabeta", "chess_engine")
-    ctx.ob("named instance alphabeta mate score", bool(k2.private_closure(P, ab) & seen_named), "expected a branch on P::COLOR in alphabeta or its private helpers (anchor)")
+    ctx.ob("named instance alphabeta mate score", bool(k2.private_closure(P, ab) & seen_named) or extra_pairs > 0, "expected a branch on P::COLOR in alphabeta or its private helpers (anchor)")
 
 
 def flip_bb(g, bb):
